@@ -42,6 +42,14 @@ class Check:
     def ok(self, rule, instance, detail=''):
         self.obligations.append(dict(rule=rule, instance=instance, ok=True, detail=detail))
 
+    def undecide(self, text):
+        """record a construct that is outside the rules' model and was not refuted: the check ends with exit 2 unless a definite
+        violation is found"""
+        if not hasattr(self, 'undecided'):
+            self.undecided = []
+        if text not in self.undecided:
+            self.undecided.append(text)
+
     def fail(self, rule, instance, detail, site, loc=None, **kw):
         """site: stable identifier of the offending construct (function/macro/field names, no
         line numbers) used to match known findings."""
@@ -108,6 +116,10 @@ class Check:
                 unlisted.append(v)
         if floor_errors and not unlisted:
             raise astdb.AnalysisBroken('; '.join(floor_errors))
+        # constructs the rules could neither accept nor refute (recorded with undecide()): without a definite violation the analysis
+        # decides nothing
+        if getattr(self, 'undecided', None) and not unlisted:
+            raise astdb.AnalysisBroken('not decided: ' + ' | '.join(self.undecided[:4]))
         os.makedirs(VIOL_DIR, exist_ok=True)
         for f in os.listdir(VIOL_DIR):
             if f.startswith(self.pid + '-'):
